@@ -224,6 +224,15 @@ class _Budget(Exception):
     pass
 
 
+def search_space(case) -> int:
+    """Number of schedules a naive product enumeration visits."""
+    space = 1
+    for path, n in leaves(case["tree"]):
+        if n["t"] == "choose":
+            space *= (len(alloc_vectors(case, n)) if eligible(case, n) else 0) + 1
+    return space
+
+
 def sem_opt(case, limit=400000):
     """Maximum utility over all valid schedules (None when the search needs more
     than `limit` search nodes)."""
